@@ -9,7 +9,7 @@ PLAN = {"quick": (1000, 400), "thorough": (20000, 3600)}
 LARGE = (0.02, 19)  # (share, largest size) of the large class of gen.kv: 17+ control points, degree up to 8
 STEP_BUDGET = 20_000_000  # loop line events per outermost call: ten times the default, for the large class
 RULE = ("case = (source polynomial curve C, target knot vector S on the same interval, optional interpolation nodes); "
-        "classes: C in S (S is a refinement / elevation of C's space built by the reference model) and generic pairs with "
+        "classes: C in S (S is a refinement / elevation of C's space built by the reference model), related pairs (same degree, size and distinct knots with permuted multiplicities; same knots at degree p+-1; one knot moved) and generic pairs with "
         "degrees 0..3, non uniform spans, different interval lengths, scalar / vector points, node sets of every admissible "
         "size; oracles exact: residual orthogonal to every basis function of S (or to the null space of the evaluation "
         "map when nodes are given), interpolation at the nodes, D == C and error == 0 when C in S, error >= 0 and "
@@ -40,6 +40,38 @@ def gen_case(rng, idx, tier):
             if ref.mult(V, k) < ref.degree(V) + 1:
                 V = sorted(V + [k])
         inside = True
+    elif r < 0.45:
+        # related pair (round 8): the target shares degree / size / distinct knots with the source's space without being
+        # that space - multiplicities permuted among the interior knots, the same knots at another degree, one knot moved
+        src = gen.curve(rng, p=rng.randint(1, 3), nint=rng.randint(2, 3), rational=False, dim=rng.choice([0, 0, 2]))
+        U = src["U"]
+        a, b = U[0], U[-1]
+        p = ref.degree(U)
+        ks = [k for k in ref.distinct(U) if a < k < b]
+        ms = [ref.mult(U, k) for k in ks]
+        how = rng.choice(["perm", "perm", "degree", "move"])
+        if how == "perm":
+            if len(set(ms)) == 1:
+                i = rng.randrange(len(ms))
+                ms[i] = ms[i] % (p + 1) + 1  # make them differ, then permute
+                pts = gen.points(rng, p + 1 + sum(ms), dim=0)
+                src = dict(src, U=gen.kv_from(a, b, p, ks, ms), P=pts, W=None)
+                U = src["U"]
+            ms2 = ms[:]
+            while ms2 == ms:
+                rng.shuffle(ms2)
+            V = gen.kv_from(a, b, p, ks, ms2)
+        elif how == "degree":
+            q_ = p + rng.choice([-1, 1])
+            V = gen.kv_from(a, b, q_, ks, [min(m_, q_ + 1) for m_ in ms])
+        else:
+            i = rng.randrange(len(ks))
+            lo = ks[i - 1] if i else a
+            hi = ks[i + 1] if i + 1 < len(ks) else b
+            ks2 = ks[:]
+            ks2[i] = lo + (hi - lo) * F(rng.randint(1, 6), 7)
+            V = gen.kv_from(a, b, p, ks2, ms)
+        inside = False
     else:
         V = gen.kv(rng, pmax=3, nintmax=3, itv=(a, b))
         inside = False
